@@ -320,7 +320,7 @@ LIMITS = {
     'uint32_t': ('0', 'UINT32_MAX'), 'uint64_t': ('0', 'UINT64_MAX'),
     'size_t': ('0', 'SIZE_MAX'), 'unsigned long': ('0', 'ULONG_MAX'), 'unsigned int': ('0', 'UINT_MAX'), 'unsigned': ('0', 'UINT_MAX'), 'char': ('CHAR_MIN', 'CHAR_MAX'),
     'uint_fast8_t': ('0', 'UINT_FAST8_MAX'), 'double': ('(-DBL_MAX)', 'DBL_MAX'), 'unsigned long long': ('0', 'ULLONG_MAX'), 'std::size_t': ('0', 'SIZE_MAX'),
-    'T': ('VERIF_T_MIN', 'VERIF_T_MAX'), 'TValue': ('VERIF_TVALUE_MIN', 'VERIF_TVALUE_MAX'),
+    'T': ('VERIF_T_MIN', 'VERIF_T_MAX'), 'TValue': ('VERIF_TVALUE_MIN', 'VERIF_TVALUE_MAX'), 'TKeyInternal': ('0', 'VERIF_TKEYINTERNAL_MAX'),
     'changeset_id_type': ('0', 'UINT32_MAX'), 'user_id_type': ('0', 'UINT32_MAX'),
     'object_version_type': ('0', 'UINT32_MAX'), 'object_id_type': ('INT64_MIN', 'INT64_MAX'),
     'unsigned_object_id_type': ('0', 'UINT64_MAX'), 'signed_user_id_type': ('INT32_MIN', 'INT32_MAX'),
@@ -415,13 +415,19 @@ def rw_throw(s, R):
     return s
 
 
+def limit_of(typ, which):
+    if typ not in LIMITS:
+        raise ExtractError('std::numeric_limits<%s>: type not in the table of the extractor' % typ)
+    return LIMITS[typ][1 if which == 'max' else 0]
+
+
 def rw_generic(s, R, scalar_types=()):
     s = R.sub('typed_local_enum', r'\benum\s*:\s*[\w:]+\s*\{', 'enum {', s)
     s = rw_casts(s, R)
     s = R.sub('std_string', r'\bstd::string\b(?!\s*[{(])', 'vstr', s)
     s = R.sub('numeric_limits',
               r'std::numeric_limits<\s*((?:[\w]+::)*)([\w ]+?)\s*>::(min|max|lowest)\(\)',
-              lambda m: '(' + LIMITS[m.group(2)][1 if m.group(3) == 'max' else 0] + ')', s)
+              lambda m: '(' + limit_of(m.group(2), m.group(3)) + ')', s)
     s = rw_throw(s, R)
     s = rw_scalar_ctor(s, R, scalar_types)
     s = R.sub('auto', r'\bconst\s+auto\b\s*\*\s*(?=\w)', '__auto_type ', s)   # pointer to const: the pointee type comes from the initialiser
